@@ -59,6 +59,9 @@ RangeR(x, end, step, fuel) == IF fuel = 0 \/ (step > 0 /\ x >= end) \/ (step < 0
 Range(start, end, step) == IF step = 0 THEN [r |-> "err", s |-> <<>>]
                            ELSE IF step > 0 /\ start > end THEN [r |-> "any", s |-> <<>>]       \* empty, or refused: not demanded
                            ELSE [r |-> "ok", s |-> RangeR(start, end, step, 50)]
+\* ---- `odd` / `even` / `divisible_by` on integers (negative ones included): mathematical parity and divisibility
+Odd(n) == n % 2 = 1
+Divisible(n, d) == n % (IF d < 0 THEN -d ELSE d) = 0
 \* ---- type tests partition values
 TypeTests(kind) == [defined |-> kind # "undef", undefined |-> kind = "undef", string |-> kind = "str", number |-> kind \in Num,
                     integer |-> kind = "int", float |-> kind = "float", map |-> kind = "map", array |-> kind = "arr", bool |-> kind = "bool",
